@@ -220,8 +220,15 @@ def categorical_program(rng):
                      [["assign", "y", ["add", var("y"), var("c")]]] if rng.random() < 0.6 else None])
     elif r < 0.8:
         body.append(["assign", "y", ["add", var("y"), ["mul", var("c"), var("c")]]])
+    goals = ["x", "y", "c"] + (["x**2"] if rng.random() < 0.4 else []) + (["c**2"] if rng.random() < 0.3 else [])
+    if rng.random() < 0.4:
+        # a second, independent choice with the same list of probabilities as the first one; joint moments
+        it3 = [[["add", var("w"), num(st)] if st else var("w"), pr] for st, (_, pr) in zip(rng.sample([-1, 0, 1, 2, 4], len(it2)), it2)]
+        init.append(["assign", "w", num(0)])
+        body.insert(2, ["assign", "w", ["choice", it3]])
+        goals = ["x*w"] + goals
     prog = {"types": [], "init": init, "guard": ["true"], "body": body}
-    return prog, ["x", "y", "c"] + (["x**2"] if rng.random() < 0.4 else []) + (["c**2"] if rng.random() < 0.3 else [])
+    return prog, goals
 
 
 def branchy_program(rng):
@@ -256,7 +263,7 @@ def _program_choice(rng):
     if r < 0.7:
         prog, goals = categorical_program(rng)
         text = render_program(prog)
-        return {"text": text}, rng.sample(goals, min(len(goals), 3)), "cat:" + hashlib.sha256(text.encode()).hexdigest()[:10], "categorical"
+        return {"text": text}, goals[:1] + rng.sample(goals[1:], min(len(goals) - 1, 2)), "cat:" + hashlib.sha256(text.encode()).hexdigest()[:10], "categorical"
     if r < 0.8:
         prog, goals = modular_counter_program(rng)
         text = render_program(prog)
